@@ -40,11 +40,52 @@ Record swspec := mkSw {
   s_nts     : nat;                                  (* number of time-series arguments (0..2) *)
   s_reload  : bool;                                 (* reload_on_ticked *)
   s_cases   : list (Z * branch);
-  s_default : option branch }.
+  s_default : option branch;
+  s_set     : bool }.                               (* output shape: false = TS<int>, true = TSS<int> *)
 
 (* an outer output: value (None = not valid) and last modified time *)
 Definition srcv := (option Z * Z)%type.
 Definition no_src : srcv := (None, MIN_DT).
+
+(* ---- the switch-owned output ----
+   Scalar shape: [o_val].  Set shape (TSS<int>): [o_set] are the members (sorted,
+   duplicate free), [o_old] the members before the first mutation of the cycle
+   [o_lmt] — the delta of that cycle is the difference of the two (a member
+   removed and re-added in one cycle is in neither added nor removed, as in
+   TSSDataMutationView).  Every mutation, even one that changes nothing (adding a
+   present member, clearing an empty set), marks the output modified. *)
+Record outv := mkO { o_val : option Z; o_set : list Z; o_old : list Z; o_valid : bool; o_lmt : Z }.
+Definition out0 : outv := mkO None [] [] false MIN_DT.
+
+Fixpoint set_ins (v : Z) (l : list Z) : list Z :=
+  match l with
+  | [] => [v]
+  | x :: r => if v <? x then v :: l else if v =? x then l else x :: set_ins v r
+  end.
+Definition mem (v : Z) (l : list Z) : bool := existsb (Z.eqb v) l.
+
+(* begin_mutation(t): the first mutation of a cycle starts a new delta *)
+Definition touch (t : Z) (o : outv) : outv :=
+  if o_lmt o <? t then mkO (o_val o) (o_set o) (o_set o) true t else mkO (o_val o) (o_set o) (o_old o) true t.
+
+(* a branch body's emission written through the forwarding terminal into the switch output:
+   out.set(v) for a scalar, out.add(v) for a set *)
+Definition emit_out (setsh : bool) (t v : Z) (o : outv) : outv :=
+  if setsh then let o1 := touch t o in mkO (o_val o1) (set_ins v (o_set o1)) (o_old o1) true t
+  else mkO (Some v) (o_set o) (o_old o) true t.
+
+(* switch_node.cpp reset_switch_output: clear_collection(t) for a collection output,
+   nothing for a scalar TS *)
+Definition reset_out (setsh : bool) (t : Z) (o : outv) : outv :=
+  if setsh then let o1 := touch t o in mkO (o_val o1) [] (o_old o1) true t else o.
+
+(* what the recording sink prints when the output ticked *)
+Definition rec_line (setsh : bool) (t : Z) (o : outv) : line :=
+  if setsh then
+    let add := filter (fun x => negb (mem x (o_old o))) (o_set o) in
+    let rem := filter (fun x => negb (mem x (o_set o))) (o_old o) in
+    [21; t; 1; 1; Z.of_nat (length (o_set o)); Z.of_nat (length add); Z.of_nat (length rem)] ++ o_set o ++ add ++ rem
+  else [20; t; 1; 1; match o_val o with Some v => v | None => 0 end].
 
 (* TSInputView of a sampled-bound child input: modified at the sample time or
    when the source ticked *)
@@ -178,7 +219,8 @@ Record sst := mkS {
   s_srcs  : list srcv;
   s_cur   : option (Z * inst);       (* selected key and the one live instance *)
   s_ninst : Z;
-  s_outs  : list (Z * Z);            (* output ticks (time, value), newest first *)
+  s_out   : outv;                    (* the output container *)
+  s_outs  : list line;               (* what a recorder on the output sees, newest first *)
   s_cycles : list Z;                 (* cycle times, newest first *)
   s_err   : Z }.
 
@@ -194,7 +236,8 @@ Definition need_switch (sp : swspec) (cur : option Z) (k : Z) : bool :=
   | Some k0 => s_reload sp || negb (k =? k0)
   end.
 
-(* a key tick that selects replaces the instance by a fresh, started one *)
+(* a key tick that selects replaces the instance by a fresh, started one; whatever
+   the replaced instance had published in a collection output is removed *)
 Definition spec_switch (sp : swspec) (t : Z) (s : sst) : sst :=
   match key_tick (s_srcs s) t with
   | Some k =>
@@ -202,29 +245,38 @@ Definition spec_switch (sp : swspec) (t : Z) (s : sst) : sst :=
         match select_branch sp k with
         | Some br =>
             mkS (s_now s) (s_srcs s) (Some (k, fst (inst_start t (fresh_inst br (s_ninst s) t))))
-                (s_ninst s + 1) (s_outs s) (s_cycles s) (s_err s)
-        | None => mkS (s_now s) (s_srcs s) (s_cur s) (s_ninst s) (s_outs s) (s_cycles s) 2
+                (s_ninst s + 1)
+                (match s_cur s with Some _ => reset_out (s_set sp) t (s_out s) | None => s_out s end)
+                (s_outs s) (s_cycles s) (s_err s)
+        | None => mkS (s_now s) (s_srcs s) (s_cur s) (s_ninst s) (s_out s) (s_outs s) (s_cycles s) 2
         end
       else s
   | None => s
   end.
 
-(* the one live instance runs alone *)
+(* the one live instance runs alone and writes the output *)
 Definition spec_eval (sp : swspec) (t : Z) (s : sst) : sst :=
   match s_cur s with
   | None => s
   | Some (k, i) =>
       let '(i', em) := alone_cycle sp t (s_srcs s) i in
       mkS (s_now s) (s_srcs s) (Some (k, i')) (s_ninst s)
-          (match em with Some v => (t, v) :: s_outs s | None => s_outs s end)
-          (s_cycles s) (s_err s)
+          (match em with Some v => emit_out (s_set sp) t v (s_out s) | None => s_out s end)
+          (s_outs s) (s_cycles s) (s_err s)
   end.
 
+(* a recorder on the output *)
+Definition spec_rec (sp : swspec) (t : Z) (s : sst) : sst :=
+  if o_lmt (s_out s) =? t
+  then mkS (s_now s) (s_srcs s) (s_cur s) (s_ninst s) (s_out s) (rec_line (s_set sp) t (s_out s) :: s_outs s)
+           (s_cycles s) (s_err s)
+  else s.
+
 Definition spec_cycle (sp : swspec) (h : hist) (t : Z) (s : sst) : sst :=
-  let s0 := mkS t (apply_ticks t (s_srcs s) (ticks_at sp h t)) (s_cur s) (s_ninst s) (s_outs s)
+  let s0 := mkS t (apply_ticks t (s_srcs s) (ticks_at sp h t)) (s_cur s) (s_ninst s) (s_out s) (s_outs s)
                 (t :: s_cycles s) (s_err s) in
   let s1 := spec_switch sp t s0 in
-  if negb (s_err s1 =? 0) then s1 else spec_eval sp t s1.
+  if negb (s_err s1 =? 0) then s1 else spec_rec sp t (spec_eval sp t s1).
 
 Definition inst_wake (now : Z) (i : inst) : Z :=
   match events (i_sch i) with
@@ -238,7 +290,7 @@ Definition spec_next (sp : swspec) (h : hist) (s : sst) : Z :=
 
 Fixpoint spec_loop (sp : swspec) (h : hist) (end_ : Z) (fuel : nat) (s : sst) : sst :=
   match fuel with
-  | O => mkS (s_now s) (s_srcs s) (s_cur s) (s_ninst s) (s_outs s) (s_cycles s) 9
+  | O => mkS (s_now s) (s_srcs s) (s_cur s) (s_ninst s) (s_out s) (s_outs s) (s_cycles s) 9
   | S f =>
       if negb (s_err s =? 0) then s else
       let next := spec_next sp h s in
@@ -247,7 +299,7 @@ Fixpoint spec_loop (sp : swspec) (h : hist) (end_ : Z) (fuel : nat) (s : sst) : 
   end.
 
 Definition init_srcs : list srcv := [no_src; no_src; no_src].
-Definition spec_init (start : Z) : sst := mkS (start - 1) init_srcs None 0 [] [] 0.
+Definition spec_init (start : Z) : sst := mkS (start - 1) init_srcs None 0 out0 [] [] 0.
 Definition spec_run (sp : swspec) (h : hist) (start end_ : Z) (fuel : nat) : sst :=
   spec_loop sp h end_ fuel (spec_init start).
 
@@ -361,7 +413,7 @@ Record mst := mkM {
   m_w     : swst;
   m_pslot : Z;                 (* the parent graph's schedule slot of the switch node *)
   m_ninst : Z;
-  m_out   : srcv;              (* the switch output *)
+  m_out   : outv;              (* the switch output *)
   m_log   : list line;         (* newest first *)
   m_err   : Z }.
 
@@ -371,7 +423,7 @@ Definition set_err (e : Z) (m : mst) : mst :=
   mkM (m_now m) (m_srcs m) (m_w m) (m_pslot m) (m_ninst m) (m_out m) (m_log m) e.
 Definition add_log (ls : list line) (m : mst) : mst :=
   mkM (m_now m) (m_srcs m) (m_w m) (m_pslot m) (m_ninst m) (m_out m) (rev ls ++ m_log m) (m_err m).
-Definition set_out (o : srcv) (m : mst) : mst :=
+Definition set_out (o : outv) (m : mst) : mst :=
   mkM (m_now m) (m_srcs m) (m_w m) (m_pslot m) (m_ninst m) o (m_log m) (m_err m).
 
 (* graph.cpp schedule_node_impl on the parent graph, for the switch node *)
@@ -387,8 +439,9 @@ Definition parent_schedule_opt (w : option Z) (m : mst) : mst :=
 Fixpoint parent_schedule_all (ws : list Z) (m : mst) : mst :=
   match ws with [] => m | w :: r => parent_schedule_all r (parent_schedule w m) end.
 
-(* switch_teardown (non-forwarding outputs; reset_switch_output leaves a scalar output as it is) *)
-Definition switch_teardown (t : Z) (m : mst) : mst :=
+(* switch_teardown (non-forwarding outputs): stop the active graph, then
+   reset_switch_output when [reset] (always, from activate_branch; not from switch_node_stop) *)
+Definition switch_teardown (setsh reset : bool) (t : Z) (m : mst) : mst :=
   let w := m_w m in
   match w_active w with
   | None => m
@@ -401,7 +454,8 @@ Definition switch_teardown (t : Z) (m : mst) : mst :=
           let w1 := setg a (Some c') w in
           let w2 := mkW (w_g0 w1) (w_g1 w1) None (Some a) None in
           let m1 := add_log lg (set_w w2 m) in
-          if e then set_err 7 m1 else m1
+          if e then set_err 7 m1 else
+          if reset then set_out (reset_out setsh t (m_out m1)) m1 else m1
       end
   end.
 
@@ -415,7 +469,7 @@ Definition activate_branch (sp : swspec) (br : branch) (k t : Z) (m : mst) : mst
   let c0 := new_child br (m_ninst m) t in
   let w1 := setg next (Some c0) (mkW (w_g0 w) (w_g1 w) (w_active w) None (w_akey w)) in
   let m1 := mkM (m_now m) (m_srcs m) w1 (m_pslot m) (m_ninst m + 1) (m_out m) (m_log m) (m_err m) in
-  let m2 := switch_teardown t m1 in
+  let m2 := switch_teardown (s_set sp) true t m1 in
   if negb (m_err m2 =? 0) then m2 else
   let w2 := m_w m2 in
   let w3 := mkW (w_g0 w2) (w_g1 w2) (Some next) (w_prev w2) (Some k) in
@@ -453,7 +507,7 @@ Definition eval_phase (sp : swspec) (t : Z) (m1 : mst) : mst :=
       | Some c =>
           let r := child_evaluate t (views sp t (m_srcs m1) (c_inst c)) c in
           let m2 := add_log (cr_log r) (set_w (setg a (Some (cr_child r)) w) m1) in
-          let m3 := match cr_emit r with Some v => set_out (Some v, t) m2 | None => m2 end in
+          let m3 := match cr_emit r with Some v => set_out (emit_out (s_set sp) t v (m_out m2)) m2 | None => m2 end in
           if negb (cr_err r =? 0) then set_err (cr_err r) m3 else parent_schedule_opt (cr_push r) m3
       end
   end.
@@ -475,12 +529,9 @@ Definition notify_child (sp : swspec) (t : Z) (tks : list (option Z)) (b : bool)
   end.
 
 (* the recording sink on the switch output runs when the output ticked *)
-Definition rec_phase (t : Z) (m : mst) : mst :=
+Definition rec_phase (sp : swspec) (t : Z) (m : mst) : mst :=
   if negb (m_err m =? 0) then m else
-  match m_out m with
-  | (Some v, lm) => if lm =? t then add_log [[20; t; 1; 1; v]] m else m
-  | _ => m
-  end.
+  if o_lmt (m_out m) =? t then add_log [rec_line (s_set sp) t (m_out m)] m else m.
 
 (* one cycle of the root graph at time t *)
 Definition mirror_cycle (sp : swspec) (h : hist) (t : Z) (m : mst) : mst :=
@@ -491,7 +542,7 @@ Definition mirror_cycle (sp : swspec) (h : hist) (t : Z) (m : mst) : mst :=
   let m2 := notify_child sp t tks true (notify_child sp t tks false m1) in
   if negb (m_err m2 =? 0) then m2 else
   let m3 := if m_pslot m2 =? t then switch_evaluate sp t (add_log [[11; t]] m2) else m2 in
-  rec_phase t m3.
+  rec_phase sp t m3.
 
 Definition mirror_next (sp : swspec) (h : hist) (m : mst) : Z :=
   Z.min (next_tick sp h (m_now m)) (if m_now m <? m_pslot m then m_pslot m else MAX_DT).
@@ -507,14 +558,14 @@ Fixpoint mirror_loop (sp : swspec) (h : hist) (end_ : Z) (fuel : nat) (m : mst) 
   end.
 
 Definition empty_w : swst := mkW None None None None None.
-Definition mirror_init (start : Z) : mst := mkM (start - 1) init_srcs empty_w MIN_DT 0 no_src [] 0.
+Definition mirror_init (start : Z) : mst := mkM (start - 1) init_srcs empty_w MIN_DT 0 out0 [] 0.
 Definition mirror_run (sp : swspec) (h : hist) (start end_ : Z) (fuel : nat) : mst :=
   mirror_loop sp h end_ fuel (mirror_init start).
 
 (* switch_node_stop at the end of the run (or after an escaped exception) *)
 Definition finish (m : mst) : mst :=
   let e := m_err m in
-  set_err e (switch_teardown (m_now m) (set_err 0 m)).
+  set_err e (switch_teardown false false (m_now m) (set_err 0 m)).
 
 (* ------------------------------------------------------------------ *)
 (*  Wire format (see gen/switch.py)                                    *)
@@ -522,9 +573,10 @@ Definition finish (m : mst) : mst :=
 
 Record bparams := mkBP {
   p_sos : bool; p_etick : bool; p_ewake : bool; p_rtick : bool; p_rwake : bool;
-  p_d : Z; p_c : Z; p_m : Z; p_l : Z; p_acc : Z; p_cnt : Z; p_wk : Z }.
+  p_d : Z; p_c : Z; p_m : Z; p_l : Z; p_acc : Z; p_cnt : Z; p_wk : Z;
+  p_erun : bool }.                   (* emit on every run of the user code, whatever caused it *)
 
-Definition dflt_bp : bparams := mkBP false true false false false 1 0 0 1 0 0 0.
+Definition dflt_bp : bparams := mkBP false true false false false 1 0 0 1 0 0 0 false.
 
 Definition table_step (p : bparams) (st : Z) (woke : bool) (ivs : list inview) : Z * option Z * option Z :=
   let ticked := existsb (fun v => v_valid v && v_mod v) ivs in
@@ -533,7 +585,7 @@ Definition table_step (p : bparams) (st : Z) (woke : bool) (ivs : list inview) :
   let s1 := if ticked then st + p_acc p * sum_mod + p_cnt p else st in
   let s2 := if woke then s1 + p_wk p else s1 in
   (s2,
-   if (ticked && p_etick p) || (woke && p_ewake p) then Some (p_c p + p_m p * s2 + p_l p * sum_valid) else None,
+   if p_erun p || (ticked && p_etick p) || (woke && p_ewake p) then Some (p_c p + p_m p * s2 + p_l p * sum_valid) else None,
    if (ticked && p_rtick p) || (woke && p_rwake p) then Some (p_d p) else None).
 
 Definition table_body (p : bparams) : body := mkBody (p_sos p) (table_step p).
@@ -545,27 +597,32 @@ Record dcase := mkD {
   d_ents : list (Z * Z * bool);              (* key, table slot, usekey — in file order *)
   d_dflt : option (Z * bool);
   d_tab  : list bparams;                      (* NSLOT entries *)
-  d_hist : hist }.
+  d_hist : hist;
+  d_shape : Z;
+  d_depth : Z }.
 
-Definition dcase0 : dcase := mkD 1 10 1 false [] None (repeat dflt_bp 6) [].
+Definition dcase0 : dcase := mkD 1 10 1 false [] None (repeat dflt_bp 6) [] 0 0.
 
 Definition decode_line (d : dcase) (l : line) : dcase :=
   match l with
-  | 1 :: s :: e :: _ => mkD s e (d_nts d) (d_reload d) (d_ents d) (d_dflt d) (d_tab d) (d_hist d)
-  | 2 :: n :: r :: _ => mkD (d_start d) (d_end d) n (z2b r) (d_ents d) (d_dflt d) (d_tab d) (d_hist d)
+  | 1 :: s :: e :: _ => mkD s e (d_nts d) (d_reload d) (d_ents d) (d_dflt d) (d_tab d) (d_hist d) (d_shape d) (d_depth d)
+  | 2 :: n :: r :: rest => mkD (d_start d) (d_end d) n (z2b r) (d_ents d) (d_dflt d) (d_tab d) (d_hist d)
+                               (match rest with sh :: _ => sh | [] => 0 end)
+                               (match rest with _ :: dp :: _ => dp | _ => 0 end)
   | 3 :: k :: sl :: uk :: _ =>
-      mkD (d_start d) (d_end d) (d_nts d) (d_reload d) (d_ents d ++ [(k, sl, z2b uk)]) (d_dflt d) (d_tab d) (d_hist d)
+      mkD (d_start d) (d_end d) (d_nts d) (d_reload d) (d_ents d ++ [(k, sl, z2b uk)]) (d_dflt d) (d_tab d) (d_hist d) (d_shape d) (d_depth d)
   | 4 :: sl :: uk :: _ =>
-      mkD (d_start d) (d_end d) (d_nts d) (d_reload d) (d_ents d) (Some (sl, z2b uk)) (d_tab d) (d_hist d)
-  | 5 :: sl :: sos :: et :: ew :: rt :: rw :: dd :: c :: mm :: ll :: acc :: cnt :: wk :: _ =>
+      mkD (d_start d) (d_end d) (d_nts d) (d_reload d) (d_ents d) (Some (sl, z2b uk)) (d_tab d) (d_hist d) (d_shape d) (d_depth d)
+  | 5 :: sl :: sos :: et :: ew :: rt :: rw :: dd :: c :: mm :: ll :: acc :: cnt :: wk :: rest =>
       if (0 <=? sl) && (sl <? NSLOT) then
         mkD (d_start d) (d_end d) (d_nts d) (d_reload d) (d_ents d) (d_dflt d)
-            (set_nth (Z.to_nat sl) (mkBP (z2b sos) (z2b et) (z2b ew) (z2b rt) (z2b rw) dd c mm ll acc cnt wk) (d_tab d))
-            (d_hist d)
+            (set_nth (Z.to_nat sl) (mkBP (z2b sos) (z2b et) (z2b ew) (z2b rt) (z2b rw) dd c mm ll acc cnt wk
+                                       (match rest with e :: _ => z2b e | [] => false end)) (d_tab d))
+            (d_hist d) (d_shape d) (d_depth d)
       else d
   | 6 :: k :: t :: v :: _ =>
       if (0 <=? k) && (k <=? 2) then
-        mkD (d_start d) (d_end d) (d_nts d) (d_reload d) (d_ents d) (d_dflt d) (d_tab d) (d_hist d ++ [(k, t, v)])
+        mkD (d_start d) (d_end d) (d_nts d) (d_reload d) (d_ents d) (d_dflt d) (d_tab d) (d_hist d ++ [(k, t, v)]) (d_shape d) (d_depth d)
       else d
   | _ => d
   end.
@@ -575,7 +632,8 @@ Definition decode (w : wire) : dcase := fold_left decode_line w dcase0.
 Definition slot_ok (sl : Z) : bool := (0 <=? sl) && (sl <? NSLOT).
 
 Definition case_ok (d : dcase) : bool :=
-  (0 <=? d_nts d) && (d_nts d <=? 2) &&
+  (0 <=? d_nts d) && (d_nts d <=? 2) && (0 <=? d_shape d) && (d_shape d <=? 1) &&
+  (0 <=? d_depth d) && (d_depth d <=? 2) && ((d_depth d =? 0) || (d_shape d =? 0)) &&
   (negb (match d_ents d with [] => true | _ => false end) || is_some (d_dflt d)) &&
   forallb (fun e => slot_ok (snd (fst e))) (d_ents d) &&
   match d_dflt d with Some (sl, _) => slot_ok sl | None => true end &&
@@ -587,17 +645,28 @@ Definition mk_branch (d : dcase) (sl : Z) (uk : bool) : branch :=
 Definition spec_of (d : dcase) : swspec :=
   mkSw (Z.to_nat (d_nts d)) (d_reload d)
        (map (fun e => (fst (fst e), mk_branch d (snd (fst e)) (snd e))) (d_ents d))
-       (match d_dflt d with Some (sl, uk) => Some (mk_branch d sl uk) | None => None end).
+       (match d_dflt d with Some (sl, uk) => Some (mk_branch d sl uk) | None => None end)
+       (d_shape d =? 1).
 
-Definition final_lines (m : mst) : wire :=
+Definition final_lines (setsh : bool) (m : mst) : wire :=
   (if m_err m =? 0 then [] else [[29; m_err m]]) ++
-  [[30; b2z (is_some (fst (m_out m))); match fst (m_out m) with Some v => v | None => 0 end; snd (m_out m)]].
+  [if setsh
+   then [31; b2z (o_valid (m_out m)); o_lmt (m_out m); Z.of_nat (length (o_set (m_out m)))] ++ o_set (m_out m)
+   else [30; b2z (is_some (o_val (m_out m))); match o_val (m_out m) with Some v => v | None => 0 end; o_lmt (m_out m)]].
+
+(* A case with d_depth > 0 wraps every branch body in d_depth nested graph nodes
+   (nested_<G>).  The wrapper is TRANSPARENT in this model: the run is the same, and
+   the driver's reference pass (the same case with the body inlined, recorder lines
+   only, re-coded 20 -> 40) is the model's own recorder stream. *)
+Definition ref_lines (log : list line) : wire :=
+  flat_map (fun l => match l with 20 :: r => [40 :: r] | _ => [] end) log.
 
 Definition run_switch (w : wire) : wire :=
   let d := decode w in
   if negb (case_ok d) then [[29; 9]] else
   let m := finish (mirror_run (spec_of d) (d_hist d) (d_start d) (d_end d) (Z.to_nat (d_end d - d_start d) + 1)) in
-  rev (m_log m) ++ final_lines m.
+  (if 0 <? d_depth d then ref_lines (rev (m_log m)) else []) ++
+  rev (m_log m) ++ final_lines (s_set (spec_of d)) m.
 
 (* the specification's observable: the output ticks, as recorder lines *)
-Definition spec_lines (s : sst) : wire := map (fun o => [20; fst o; 1; 1; snd o]) (rev (s_outs s)).
+Definition spec_lines (s : sst) : wire := rev (s_outs s).
